@@ -27,6 +27,8 @@ func init() {
 		"go.m.sign":  goMSign,
 		"go.m.limit": goMLimit,
 		"go.m.modes": goMModes,
+		"m.int":      exMInt,
+		"m.intdec":   exMIntDec,
 		"m.bodyx":    exMBodyX,
 		"m.extn":     exMExtn,
 		"go.m.ext":   goMExt,
@@ -145,54 +147,28 @@ func (s sendSpec) comment() string {
 
 func (s sendSpec) sendable() wallet.Sendable {
 	to := ton.AccountID{Workchain: s.wc, Address: s.addr}
-	if s.kind == "s" {
-		return wallet.SimpleTransfer{Amount: tlb.Grams(s.amount), Address: to, Comment: s.comment(), Bounceable: s.bounce}
-	}
-	m := wallet.Message{Amount: tlb.Grams(s.amount), Address: to, Bounce: s.bounce, Mode: s.mode}
-	if s.commentLen > 0 {
-		body := boc.NewCell()
-		r := rand.New(rand.NewSource(int64(s.seed)))
-		n := s.commentLen % 900
-		for i := 0; i < n; i++ {
-			_ = body.WriteBit(r.Intn(2) == 1)
+	body, code, data, comment := s.parts()
+	switch s.kind {
+	case "s":
+		return wallet.SimpleTransfer{Amount: tlb.Grams(s.amount), Address: to, Comment: comment, Bounceable: s.bounce}
+	case "d":
+		d := wallet.ContractDeploy{Workchain: s.wc, Code: code, Data: data, Amount: tlb.Grams(s.amount)}
+		if body != nil {
+			d.Body = body
 		}
-		if s.seed%3 == 0 {
-			ch := boc.NewCell()
-			_ = ch.WriteUint(uint64(s.seed), 32)
-			_ = body.AddRef(ch)
-		}
-		m.Body = body
+		return d
 	}
-	if s.init {
-		code, data := boc.NewCell(), boc.NewCell()
-		_ = code.WriteUint(uint64(s.seed), 64)
-		_ = data.WriteUint(uint64(s.amount), 64)
-		m.Code, m.Data = code, data
-	}
-	return m
+	return wallet.Message{Amount: tlb.Grams(s.amount), Address: to, Bounce: s.bounce, Mode: s.mode, Body: body, Code: code, Data: data}
 }
 
 // requestedMode: the send mode the caller asked for — the Mode field of a wallet.Message (every value 0..255 is a
-// legitimate request, 0 included), and the documented default 3 for a SimpleTransfer, which has no mode field.
+// legitimate request, 0 included), and the documented default 3 for a SimpleTransfer or a ContractDeploy, which have
+// no mode field.
 func (s sendSpec) requestedMode() uint8 {
-	if s.kind == "s" {
+	if s.kind != "m" {
 		return 3
 	}
 	return s.mode
-}
-
-// raw: the internal message cell as ToInternal + Marshal produce it, paired with the REQUESTED mode (not with the
-// mode ToInternal returns: that one is under test).
-func (s sendSpec) raw() wallet.RawMessage {
-	msg, _, err := s.sendable().ToInternal()
-	if err != nil {
-		panic(err)
-	}
-	c := boc.NewCell()
-	if err := tlb.Marshal(c, msg); err != nil {
-		panic(err)
-	}
-	return wallet.RawMessage{Message: c, Mode: s.requestedMode()}
 }
 
 // modeChoice: the send modes with a meaning of their own, and random ones
@@ -488,6 +464,20 @@ func goMSign(a []string) string {
 	if err != nil {
 		return "FAIL parse " + err.Error()
 	}
+	// the envelope: addressed to the wallet's own address = hash of its state init; the state init attached exactly
+	// when requested, with the version's code and the fresh data (reference cells built by hand)
+	wantInit, wantDest := refWallet(ver, pub, refIdsOf(ver, a[2], a[3], a[4]))
+	if si.destWc != wantDest.destWc || si.destAddr != wantDest.destAddr {
+		return "FAIL destination-is-not-the-hash-of-the-wallet-state-init"
+	}
+	switch {
+	case a[5] == "1" && si.init == nil:
+		return "FAIL wallet-init-dropped"
+	case a[5] != "1" && si.init != nil:
+		return "FAIL wallet-init-unrequested"
+	case si.init != nil && hashOrNil(si.init) != hashOrNil(wantInit):
+		return "FAIL wallet-init-changed"
+	}
 	rows := h.ParseTable(cellTable(si.body))
 	nflips := atoi(a[9])
 	for i := 0; i < nflips; i++ {
@@ -627,7 +617,10 @@ func checkDecodedFields(ver wallet.Version, w wallet.Wallet, msgTable, wcS, subS
 
 // go.m.modes <ver> <seed> <specs>: every construction path carries exactly the requested send modes (0 included) and
 // the requested messages, in order: Send (Sendable -> ToInternal -> SendV2), CreateMessageBody (Sendable -> ToInternal),
-// and RawSend with RawMessage values.
+// and RawSend with RawMessage values. "Requested" is the hand-built reference internal message (refInternal), never
+// the result of ToInternal. Messages WITH a state init (wallet.Message{Code, Data}, ContractDeploy, a RawMessage
+// whose cell carries an init) are compared field by field: code hash, data hash, no library, and for a deploy the
+// destination is the hash of the state init the message carries.
 func goMModes(a []string) string {
 	ver := wallet.Version(atoi(a[0]))
 	var specs []sendSpec
@@ -637,7 +630,7 @@ func goMModes(a []string) string {
 		sp := parseSpec(x)
 		specs = append(specs, sp)
 		ss = append(ss, sp.sendable())
-		want = append(want, sp.raw())
+		want = append(want, sp.refRaw())
 	}
 	check := func(path string, msg *boc.Cell) string {
 		got, err := wallet.ExtractRawMessages(ver, msg)
@@ -650,6 +643,9 @@ func goMModes(a []string) string {
 		for i := range got {
 			if got[i].Mode != want[i].Mode {
 				return fmt.Sprintf("FAIL %s-mode-changed message=%d requested=%d sent=%d", path, i, want[i].Mode, got[i].Mode)
+			}
+			if r := checkInit(path, i, specs[i], got[i].Message); r != "" {
+				return r
 			}
 			if hashOrNil(got[i].Message) != hashOrNil(want[i].Message) {
 				return fmt.Sprintf("FAIL %s-message-changed message=%d", path, i)
@@ -681,12 +677,12 @@ func goMModes(a []string) string {
 	if err != nil {
 		return "FAIL create-body"
 	}
-	self := w.GetAddress()
-	env := rebuildExt(&sentInfo{destWc: int8(self.Workchain), destAddr: self.Address}, body)
+	var self [32]byte
+	env := rebuildExt(&sentInfo{destWc: 0, destAddr: self}, body)
 	if r := check("create-body", env); r != "" {
 		return r
 	}
-	// 3. RawSend with the requested modes given directly
+	// 3. RawSend with the requested messages (reference cells, inits included) and modes given directly
 	chain2 := &scriptedChain{}
 	w2, _ := wallet.New(keyFromSeed(a[1]), ver, chain2)
 	if err := w2.RawSend(context.Background(), 7, time.Unix(1800000000, 0), want, nil); err != nil || len(chain2.sent) != 1 {
@@ -702,28 +698,166 @@ func goMModes(a []string) string {
 	return "ok"
 }
 
-// go.m.limit <ver> <seed> <n>: more messages than the version allows are refused and nothing is sent; exactly the
-// maximum is accepted.
-func goMLimit(a []string) string {
-	ver := wallet.Version(atoi(a[0]))
-	n := atoi(a[2])
+// limitMsgs: n distinct small messages with distinct modes
+func limitMsgs(n int) []wallet.RawMessage {
 	raws := make([]wallet.RawMessage, n)
 	for i := range raws {
 		c := boc.NewCell()
 		_ = c.WriteUint(uint64(i), 16)
 		raws[i] = wallet.RawMessage{Message: c, Mode: byte(i)}
 	}
+	return raws
+}
+
+// go.m.limit <ver> <seed> <n>: both sides of the batch-size boundary. Up to and INCLUDING the version's maximum the
+// send is accepted, exactly one message goes out and it carries exactly the n requested messages in order; above the
+// maximum the send is refused and nothing is sent. (The expected side comes from the documented maxima, not from the
+// wallet.)
+func goMLimit(a []string) string {
+	ver := wallet.Version(atoi(a[0]))
+	n := atoi(a[2])
+	raws := limitMsgs(n)
 	_, chain, _, err := rawSend(ver, a[1], "_", "_", "_", false, 1, time.Unix(1700000000, 0), 0, raws)
 	if n > maxMsgs(ver) {
-		if err == nil || len(chain.sent) != 0 {
-			return "FAIL over-limit-send-not-refused"
+		if err == nil {
+			return fmt.Sprintf("FAIL over-limit-send-not-refused n=%d max=%d", n, maxMsgs(ver))
+		}
+		if len(chain.sent) != 0 {
+			return fmt.Sprintf("FAIL over-limit-send-refused-but-sent n=%d", n)
 		}
 		return "ok"
 	}
-	if err != nil || len(chain.sent) != 1 {
-		return "FAIL within-limit-send-refused"
+	if err != nil {
+		return fmt.Sprintf("FAIL within-limit-send-refused n=%d max=%d err=%s", n, maxMsgs(ver), strings.ReplaceAll(err.Error(), " ", "_"))
+	}
+	if len(chain.sent) != 1 {
+		return fmt.Sprintf("FAIL within-limit-sent-count n=%d sent=%d", n, len(chain.sent))
+	}
+	cells, derr := boc.DeserializeBoc(chain.sent[0])
+	if derr != nil || len(cells) != 1 {
+		return "FAIL within-limit-payload"
+	}
+	got, xerr := wallet.ExtractRawMessages(ver, cells[0])
+	if xerr != nil {
+		return "FAIL within-limit-extract-err"
+	}
+	if len(got) != n {
+		return fmt.Sprintf("FAIL within-limit-carried-count n=%d carried=%d", n, len(got))
+	}
+	for i := range got {
+		if got[i].Mode != raws[i].Mode || hashOrNil(got[i].Message) != hashOrNil(raws[i].Message) {
+			return fmt.Sprintf("FAIL within-limit-message-changed n=%d message=%d", n, i)
+		}
 	}
 	return "ok"
+}
+
+// m.int <kind> <amount> <wc> <addrhex> <bounce> <mode> <commenthex|-> <body|-> <code|-> <data|->: the internal message
+// ToInternal + Marshal produce for wallet.SimpleTransfer (s), wallet.Message (m), wallet.ContractDeploy (d), and the
+// mode ToInternal returns: "ok <mode> <cells>"
+func exMInt(a []string) string {
+	amount, _ := strconv.ParseUint(a[1], 10, 64)
+	var to ton.AccountID
+	to.Workchain = int32(atoi(a[2]))
+	copy(to.Address[:], h.MustUnHex(a[3]))
+	opt := func(x string) *boc.Cell {
+		if x == "-" {
+			return nil
+		}
+		return tableCell(x)
+	}
+	var sd wallet.Sendable
+	switch a[0] {
+	case "s":
+		sd = wallet.SimpleTransfer{Amount: tlb.Grams(amount), Address: to, Comment: string(unComment(a[6])), Bounceable: a[4] == "1"}
+	case "m":
+		sd = wallet.Message{Amount: tlb.Grams(amount), Address: to, Bounce: a[4] == "1", Mode: uint8(atoi(a[5])), Body: opt(a[7]), Code: opt(a[8]), Data: opt(a[9])}
+	case "d":
+		d := wallet.ContractDeploy{Workchain: to.Workchain, Amount: tlb.Grams(amount)}
+		if c := opt(a[7]); c != nil {
+			d.Body = c
+		}
+		if c := opt(a[8]); c != nil {
+			d.Code = c
+		}
+		if c := opt(a[9]); c != nil {
+			d.Data = c
+		}
+		sd = d
+	default:
+		return "err"
+	}
+	msg, mode, err := sd.ToInternal()
+	if err != nil {
+		return "err"
+	}
+	c := boc.NewCell()
+	if err := tlb.Marshal(c, msg); err != nil {
+		return "err"
+	}
+	return fmt.Sprintf("ok %d %s", mode, h.Canon([]*boc.Cell{c}))
+}
+
+// m.intdec <msg>: the library's tlb.Message decoder on an internal message:
+// "ok <bounce> <wc:addr|none> <amount> <hasInit> <codehash|-> <datahash|-> <bodyhash>"
+func exMIntDec(a []string) string {
+	var m tlb.Message
+	if err := tlb.Unmarshal(tableCell(a[0]), &m); err != nil {
+		return "err"
+	}
+	if m.Info.SumType != "IntMsgInfo" {
+		return "unmodelled"
+	}
+	info := m.Info.IntMsgInfo
+	dest := "none"
+	if info.Dest.SumType == "AddrStd" {
+		dest = fmt.Sprintf("%d:%s", info.Dest.AddrStd.WorkchainId, h.Hex(info.Dest.AddrStd.Address[:]))
+	}
+	b := func(x bool) string {
+		if x {
+			return "1"
+		}
+		return "0"
+	}
+	code, data := "-", "-"
+	if m.Init.Exists {
+		si := m.Init.Value.Value
+		if si.Code.Exists {
+			code = hashOrNil(&si.Code.Value.Value)
+		}
+		if si.Data.Exists {
+			data = hashOrNil(&si.Data.Value.Value)
+		}
+	}
+	body := boc.Cell(m.Body.Value)
+	return fmt.Sprintf("ok %s %s %d %s %s %s %s", b(info.Bounce), dest, uint64(info.Value.Grams), b(m.Init.Exists), code, data, hashOrNil(&body))
+}
+
+func unComment(x string) []byte {
+	if x == "-" {
+		return nil
+	}
+	return h.MustUnHex(x[1:])
+}
+
+// intLine: the m.int arguments of a spec
+func (s sendSpec) intLine() []string {
+	body, code, data, comment := s.parts()
+	opt := func(c *boc.Cell) string {
+		if c == nil {
+			return "-"
+		}
+		return cellTable(c)
+	}
+	b := "0"
+	if s.bounce {
+		b = "1"
+	}
+	cm := "-"
+	if s.kind == "s" && comment != "" {
+		cm = "-" + h.Hex([]byte(comment))
+	}
+	return []string{s.kind, fmt.Sprint(s.amount), fmt.Sprint(s.wc), h.Hex(s.addr[:]), b, fmt.Sprint(s.mode), cm, opt(body), opt(code), opt(data)}
 }
 
 // --------------------------------------------------------------------------------------------------- generator
@@ -763,6 +897,9 @@ func genSpec(g *h.G) sendSpec {
 	}
 	s.seed = g.Rng.Intn(1 << 30)
 	s.init = s.kind == "m" && g.Rng.Intn(4) == 0
+	if g.Rng.Intn(8) == 0 {
+		s.kind, s.init, s.mode = "d", false, wallet.DefaultMessageMode
+	}
 	return s
 }
 
@@ -789,6 +926,7 @@ func genC14(g *h.G) {
 	cx := &c14opts{g}
 	genPrim(g, "prim.sha256")
 	genExt(g)
+	genInt(g)
 	nCases := g.Scale(40, 1000)
 	for _, ver := range sendVers {
 		vs := fmt.Sprint(int(ver))
@@ -821,7 +959,10 @@ func genC14(g *h.G) {
 						sp.commentLen %= 200
 					}
 					specs = append(specs, sp.String())
-					raws = append(raws, sp.raw())
+					raws = append(raws, sp.refRaw())
+					if sp.init || sp.kind == "d" {
+						g.Count("msg_with_state_init_" + sp.kind)
+					}
 				} else {
 					raws = append(raws, wallet.RawMessage{Message: randRawCell(g), Mode: modeChoice(g)})
 				}
@@ -831,35 +972,12 @@ func genC14(g *h.G) {
 			if init {
 				initS = "1"
 			}
-			// real build, signature computed directly with crypto/ed25519 on the digest of the signed part
-			_, chain, _, err := rawSend(ver, seed, wc, sub, net, init, seqno, time.Unix(int64(vu), 0), k, raws)
-			if err != nil || len(chain.sent) != 1 {
-				panic(fmt.Sprintf("generator: RawSendV2 failed for %v n=%d: %v", ver, n, err))
-			}
-			si, err := parseSent(chain.sent[0])
-			if err != nil {
-				panic("generator: " + err.Error())
-			}
-			signed, _, err := splitSigned(ver, si.body)
-			if err != nil {
-				panic(err)
-			}
-			digest, err := signed.Hash()
-			if err != nil {
-				panic(err)
-			}
-			sig := ed25519.Sign(key, digest)
+			// the expected message, built by hand (c14ref.go); signature computed directly with crypto/ed25519 on the
+			// hash of the reference signed cell. Nothing here goes through the wallet package.
+			si, sig := refWalletMessage(ver, key, wc, sub, net, init, uint32(wallet.V5MsgTypeSignedExternal), seqno, vu, rnd, raws, "n")
 			g.NonTrivial(fmt.Sprintf("%s/%s/%d/%d/%d", vs, seed, n, seqno, vu))
 			margs := msgsArg(raws)
 			g.Emit("m.raw", vs, seed, pk, wc, sub, net, codeTable(ver), initS, fmt.Sprint(seqno), fmt.Sprint(vu), fmt.Sprint(rnd), h.Hex(sig), margs)
-			msgTable := cellTable(si.root)
-			g.Emit("m.decode", vs, msgTable)
-			g.Emit("m.verify", vs, msgTable, pk, "1")
-			other := ed25519.NewKeyFromSeed(g.Bytes(32)).Public().(ed25519.PublicKey)
-			g.Emit("m.verify", vs, msgTable, h.Hex(other), "0")
-			if g.Rng.Intn(8) == 0 {
-				g.Emit("m.verify", vs, msgTable, h.Hex(g.Bytes(g.Pick(0, 31, 33, 64))), "0")
-			}
 			flips := 8
 			if n > 50 {
 				flips = 3
@@ -872,21 +990,20 @@ func genC14(g *h.G) {
 				if g.Rng.Intn(3) == 0 {
 					op = uint32(wallet.V5MsgTypeSignedInternal)
 				}
-				// digest of the CreateMessageBody result: rebuild to obtain the signature for this opcode
-				w, _ := wallet.New(key, ver, nil, walletOpts(wc, sub, net)...)
-				var ss []wallet.Sendable
-				for _, x := range specs {
-					ss = append(ss, parseSpec(x).sendable())
-				}
-				rand.Seed(k)
-				body, err := w.CreateMessageBody(wallet.MessageConfig{Seqno: seqno, ValidUntil: time.Unix(int64(vu), 0), V5MsgType: wallet.V5MsgType(op)}, ss...)
-				if err != nil {
-					panic(err)
-				}
-				sg, _, _ := splitSigned(ver, body)
-				d2, _ := sg.Hash()
+				_, sig2 := refWalletMessage(ver, key, wc, sub, net, false, op, seqno, vu, rnd, raws, "n")
 				g.Emit("m.body", vs, seed, wc, sub, net, fmt.Sprint(op), fmt.Sprint(seqno), fmt.Sprint(vu), fmt.Sprint(rnd),
-					h.Hex(ed25519.Sign(key, d2)), margs, strings.Join(append([]string{fmt.Sprint(k)}, specs...), ";"))
+					h.Hex(sig2), margs, strings.Join(append([]string{fmt.Sprint(k)}, specs...), ";"))
+			}
+			if si == nil {
+				continue
+			}
+			msgTable := cellTable(si.root)
+			g.Emit("m.decode", vs, msgTable)
+			g.Emit("m.verify", vs, msgTable, pk, "1")
+			other := ed25519.NewKeyFromSeed(g.Bytes(32)).Public().(ed25519.PublicKey)
+			g.Emit("m.verify", vs, msgTable, h.Hex(other), "0")
+			if g.Rng.Intn(8) == 0 {
+				g.Emit("m.verify", vs, msgTable, h.Hex(g.Bytes(g.Pick(0, 31, 33, 64))), "0")
 			}
 			// mutated messages: single bit flips in the body cell, re-verified and re-decoded by both sides
 			rows := h.ParseTable(cellTable(si.body))
@@ -923,6 +1040,23 @@ func genC14(g *h.G) {
 			g.Count(fmt.Sprintf("modes_path_mode_%d", md))
 			g.Emit("go.m.modes", vs, h.Hex(g.Bytes(32)), sp.String()+";"+sp2.String())
 		}
+		// outgoing messages WITH a state init on every construction path: wallet.Message{Code, Data}, ContractDeploy,
+		// alone and mixed with plain transfers
+		for i := 0; i < g.Scale(6, 60); i++ {
+			sp := genSpec(g)
+			sp.kind, sp.init, sp.commentLen = "m", true, sp.commentLen%100
+			dp := genSpec(g)
+			dp.kind, dp.init, dp.commentLen = "d", false, dp.commentLen%100
+			pl := genSpec(g)
+			pl.commentLen %= 100
+			xs := [][]sendSpec{{sp}, {dp}, {pl, dp, sp}, {dp, sp}}[i%4]
+			var ss []string
+			for _, x := range xs {
+				ss = append(ss, x.String())
+				g.Count("modes_path_state_init_" + x.kind)
+			}
+			g.Emit("go.m.modes", vs, h.Hex(g.Bytes(32)), strings.Join(ss, ";"))
+		}
 		for i := 0; i < g.Scale(6, 120); i++ {
 			var xs []string
 			for j := 0; j < 1+g.Rng.Intn(4); j++ {
@@ -932,31 +1066,43 @@ func genC14(g *h.G) {
 			}
 			g.Emit("go.m.modes", vs, h.Hex(g.Bytes(32)), strings.Join(xs, ";"))
 		}
-		// limits
-		for _, n := range []int{max, max + 1, max + 50} {
+		// limits: both sides of the boundary, through the oracle and through the model
+		for _, n := range []int{max - 1, max, max + 1, max + 50} {
+			g.Count(fmt.Sprintf("limit_%s", map[bool]string{true: "within", false: "over"}[n <= max]))
 			g.Emit("go.m.limit", vs, h.Hex(g.Bytes(32)), fmt.Sprint(n))
-			// and through the model: over-limit sends are refused
 			seed := h.Hex(g.Bytes(32))
 			key := keyFromSeed(seed)
-			raws := make([]wallet.RawMessage, n)
-			for i := range raws {
-				c := boc.NewCell()
-				_ = c.WriteUint(uint64(i), 16)
-				raws[i] = wallet.RawMessage{Message: c, Mode: byte(i)}
-			}
-			sig := make([]byte, 64)
-			if n <= max {
-				_, chain, _, err := rawSend(ver, seed, "_", "_", "_", false, 5, time.Unix(1700000000, 0), 7, raws)
-				if err != nil {
-					panic(err)
-				}
-				si, _ := parseSent(chain.sent[0])
-				sg, _, _ := splitSigned(ver, si.body)
-				d, _ := sg.Hash()
-				sig = ed25519.Sign(key, d)
-			}
+			raws := limitMsgs(n)
+			_, sig := refWalletMessage(ver, key, "_", "_", "_", false, uint32(wallet.V5MsgTypeSignedExternal), 5, 1700000000, rndForSeed(7), raws, "n")
 			g.Emit("m.raw", vs, seed, h.Hex(key.Public().(ed25519.PublicKey)), "_", "_", "_", codeTable(ver), "0", "5", "1700000000",
 				fmt.Sprint(rndForSeed(7)), h.Hex(sig), msgsArg(raws))
+		}
+	}
+}
+
+// genInt: the internal message of every Sendable kind against the model (m.int)
+func genInt(g *h.G) {
+	for i := 0; i < g.Scale(120, 3000); i++ {
+		sp := genSpec(g)
+		if i%3 == 0 {
+			sp.kind, sp.init = "d", false
+		}
+		g.Count("int_kind_" + sp.kind)
+		if sp.init || sp.kind == "d" {
+			g.Count("int_with_state_init")
+		}
+		g.Emit("m.int", sp.intLine()...)
+		g.Emit("m.intdec", cellTable(refInternal(sp)))
+	}
+	// code without data / data without code: wallet.Message sends no state init, ContractDeploy refuses
+	for _, kind := range []string{"m", "d"} {
+		for _, miss := range []int{8, 9} {
+			sp := genSpec(g)
+			sp.kind, sp.init = kind, kind == "m"
+			l := sp.intLine()
+			l[8], l[9] = cellTable(randRawCell(g)), cellTable(randRawCell(g))
+			l[miss] = "-"
+			g.Emit("m.int", l...)
 		}
 	}
 }
